@@ -20,7 +20,8 @@ import coqlit as L
 
 ID = "C19"
 COQ_PROPERTY_FILE = "Properties/C19.v"
-COQ_DEPS = ["Common/ListX.v", "Common/ObsHash.v", "Generated/Tables.v", "Model/Copy.v", "Proofs/CopyProofs.v"]
+COQ_DEPS = ["Common/ListX.v", "Common/ObsHash.v", "Generated/Tables.v", "Model/Copy.v", "Proofs/CopyProofs.v",
+            "Proofs/CopyInvProofs.v"]
 COQ_IMPORTS = "From Mesa Require Import Model.Copy."
 COQ_CASE_TYPE = "case"
 COQ_RUN = "run_case"
